@@ -1,5 +1,6 @@
 import ZoektModel.Basic.Proto
 import ZoektModel.C24.Spec
+import ZoektModel.C24.ApiModel
 namespace ZoektModel.C24
 open ZoektModel ZoektModel.Proto
 
@@ -220,6 +221,32 @@ def handle (line : String) : String :=
         | _ => "?"
       if checkHandlerP ((impl.splitOn " ").headD "") then answer model else specFail model ("handler-not-total:" ++ (impl.splitOn " ").headD "")
     | _, _, _ => badCase "proto term / table"
+  | ["flush", a] =>
+    match a.toNat? with
+    | some fr =>
+      let model := s!"{flushToProto fr} {flushFromProto (flushToProto fr)}"
+      answer model
+    | none => badCase "fields"
+  | ["flushfrom", a] =>
+    match a.toNat? with
+    | some p => answer s!"{flushFromProto p}"
+    | none => badCase "fields"
+  | ["listfield", a] =>
+    match a.toInt? with
+    | some f => answer s!"{listFieldToProto f} {listFieldFromProto (listFieldToProto f)}"
+    | none => badCase "fields"
+  | ["listfieldfrom", a] =>
+    match a.toNat? with
+    | some p => answer s!"{listFieldFromProto p}"
+    | none => badCase "fields"
+  | ["duration", a] =>
+    match a.toInt? with
+    | some d => answer s!"{(durationSplit d).1} {(durationSplit d).2} {durationJoin (durationSplit d)}"
+    | none => badCase "fields"
+  | ["rank", a] =>
+    match a.toNat? with
+    | some x => answer s!"{u16ViaU32 x}"
+    | none => badCase "fields"
   | _ => badCase "op"
 
 def main : IO Unit := runLines handle
